@@ -47,6 +47,20 @@ func newC09Env() (*c09env, error) {
 		case 'B': // never reads again: the client's window fills up
 			<-ctx.Wait()
 			return status.OK
+		case 'U': // upload sink: reads everything, then acknowledges the byte count
+			total := len(first)
+			for {
+				m, st := ch.Receive(ctx)
+				if !st.OK() {
+					return status.OK
+				}
+				if len(m) == 1 && m[0] == 'Z' {
+					break
+				}
+				total += len(m)
+			}
+			ch.SendAndClose(ctx, []byte(fmt.Sprintf("U%d", total)))
+			return status.OK
 		default: // echo until the end
 			msg := first
 			for {
@@ -122,6 +136,8 @@ type session struct {
 	auto bool
 	opts func() mpx.Options
 	run  func(e *c09env, cl any, o *observer)
+	// offsets overrides the enumeration of cut offsets for a direction carrying n bytes (nil = default rule)
+	offsets func(dir, n int) []int
 }
 
 func defaultOpts() mpx.Options {
@@ -225,6 +241,50 @@ var c09sessions = []session{
 		}
 		o.record("Receive[large]", st, true, bad, began)
 	}},
+	{name: "mpx-bulk-upload", opts: defaultOpts, offsets: func(dir, n int) []int {
+		if dir == 1 {
+			return nil // the server->client stream is short (handshake, window updates, acknowledgement): default rule
+		}
+		offs := []int{0, 1, 9, 10, 11, 30, 60, 100, 4000, 1 << 18, 1 << 20, 5 << 20, 9 << 20, 17 << 20, n - 300, n - 10, n - 1}
+		return offs
+	}, run: func(e *c09env, cl any, o *observer) {
+		// 24 MiB in 256 KiB messages through the default 16 MiB window: at any moment megabytes are pending in
+		// the write queue and the socket buffers, so a peer that stops draining leaves the send loop inside a write
+		c := cl.(mpx.Client)
+		began := time.Now()
+		ch, st := c.Channel(ctxNone())
+		o.record("Channel", st, true, "", began)
+		if !st.OK() {
+			return
+		}
+		defer ch.Free()
+		o.ctxs = append(o.ctxs, ch.Context())
+		chunk := append([]byte("U"), make([]byte, 256<<10-1)...)
+		const chunks = 96
+		began = time.Now()
+		for i := 0; i < chunks; i++ {
+			if st = ch.Send(ctxNone(), chunk); !st.OK() {
+				break
+			}
+		}
+		o.record("Send[96 x 256 KiB]", st, true, "", began)
+		if !st.OK() {
+			return
+		}
+		began = time.Now()
+		st = ch.Send(ctxNone(), []byte("Z"))
+		o.record("Send[end marker]", st, true, "", began)
+		if !st.OK() {
+			return
+		}
+		began = time.Now()
+		m, st := ch.Receive(ctxNone())
+		bad := ""
+		if st.OK() && string(m) != fmt.Sprintf("U%d", chunks*len(chunk)) {
+			bad = fmt.Sprintf("upload acknowledged with %q, sent %d bytes", m, chunks*len(chunk))
+		}
+		o.record("Receive[ack]", st, true, bad, began)
+	}},
 	{name: "rpc-unary", rpc: true, opts: defaultOpts, run: func(e *c09env, cl any, o *observer) {
 		c := cl.(rpc.Client)
 		for i := 0; i < 2; i++ {
@@ -281,7 +341,7 @@ type c09case struct {
 var cutKinds = []struct {
 	k    netfx.CutKind
 	name string
-}{{netfx.CutFIN, "FIN"}, {netfx.CutRST, "RST"}, {netfx.CutHalf, "half-close"}, {netfx.CutStall, "stall-then-RST"}}
+}{{netfx.CutFIN, "FIN"}, {netfx.CutRST, "RST"}, {netfx.CutHalf, "half-close"}, {netfx.CutStall, "stall-then-RST"}, {netfx.CutHalfBlackhole, "half-close-then-deaf"}}
 
 func (e *c09env) newClient(s session, addr string) (any, func()) {
 	o := s.opts()
@@ -405,9 +465,12 @@ func (e *c09env) runFaulted(s session, plan netfx.Plan, kase *c09case) (f failur
 	// 7: recovery once the path is healed
 	if faulted {
 		px.SetPlan(netfx.Plan{})
+		if plan.Kind == netfx.CutHalfBlackhole {
+			px.EndBlackholes() // the deaf connection would otherwise linger for BlackholeFor
+		}
 		// the fault must be complete before recovery is judged (a stalled or half-closed
 		// connection is torn down a little later)
-		for deadline := time.Now().Add(faultBound); px.Live.Load() != 0 && time.Now().Before(deadline); {
+		for deadline := time.Now().Add(faultBound); px.Live.Load() != 0 && time.Now().Before(deadline) && !(s.auto && plan.Kind == netfx.CutHalfBlackhole); {
 			time.Sleep(200 * time.Microsecond)
 		}
 		if s.auto {
@@ -490,7 +553,7 @@ func TestC09_FaultEnumeration(t *testing.T) {
 		t.Fatalf("infrastructure: %v", err)
 	}
 	defer e.close()
-	ev.Rule(c09, "fault enumeration: five sessions (raw mpx echo, window-blocked sender, compressed 30 KB frames, unary RPC on an on-demand client, bidirectional streaming RPC on an auto-connect client) are first recorded fault-free through a counting TCP proxy; then for every byte offset k of each direction (all offsets when the direction carries <= 400 bytes, otherwise handshake bytes, every 7th offset and the last 64) and each fault kind {FIN, RST, half-close, stall 40 ms then RST} the session is re-run with the connection cut after exactly k bytes; oracle: every call returns within 10 s of the fault, none returns OK for work the peer did not do (echo payloads and RPC results are self-describing), no partial frame is delivered, connection and channel contexts are cancelled, server handlers return, no library panic, no per-connection goroutine survives, and the same client completes the session again once the path is healed (on demand, or by itself for the auto-connect client); non-trivial = the cut really happened (offset within the session); distinct by (session, direction, offset, kind)")
+	ev.Rule(c09, "fault enumeration: six sessions (raw mpx echo, window-blocked sender, compressed 30 KB frames, 24 MiB bulk upload, unary RPC on an on-demand client, bidirectional streaming RPC on an auto-connect client) are first recorded fault-free through a counting TCP proxy; then for every byte offset k of each direction (all offsets when the direction carries <= 400 bytes, otherwise handshake bytes, every 7th offset and the last 64) and each fault kind {FIN, RST, half-close, stall 40 ms then RST, half-close towards the client while the proxy goes deaf (the client's pending writes block)} the session is re-run with the connection cut after exactly k bytes; oracle: every call returns within 10 s of the fault, none returns OK for work the peer did not do (echo payloads and RPC results are self-describing), no partial frame is delivered, connection and channel contexts are cancelled, server handlers return, no library panic, no per-connection goroutine survives, and the same client completes the session again once the path is healed (on demand, or by itself for the auto-connect client); non-trivial = the cut really happened (offset within the session); distinct by (session, direction, offset, kind)")
 	type job struct {
 		s    int
 		dir  int
@@ -506,7 +569,13 @@ func TestC09_FaultEnumeration(t *testing.T) {
 		ev.Note(c09, fmt.Sprintf("session %s: %d bytes client->server, %d bytes server->client", s.name, n0, n1))
 		for dir, n := range []int{n0, n1} {
 			var offs []int
-			if n <= 400 || ev.Thorough() {
+			if s.offsets != nil && s.offsets(dir, n) != nil {
+				for _, k := range s.offsets(dir, n) {
+					if k >= 0 {
+						offs = append(offs, k)
+					}
+				}
+			} else if n <= 400 || ev.Thorough() {
 				for k := 0; k <= n && k <= 3000; k++ {
 					offs = append(offs, k)
 				}
@@ -524,9 +593,14 @@ func TestC09_FaultEnumeration(t *testing.T) {
 			for _, k := range offs {
 				kinds := []int{k % len(cutKinds)}
 				if ev.Thorough() || k < 64 {
-					kinds = []int{0, 1, 2, 3}
+					kinds = []int{0, 1, 2, 3, 4}
 				}
 				for _, kd := range kinds {
+					if cutKinds[kd].k == netfx.CutHalfBlackhole && dir == 0 {
+						// FIN towards the server while the client hears nothing and is not read from: for the
+						// client this is a silent peer, not a transport failure it could detect
+						continue
+					}
 					jobs = append(jobs, job{si, dir, k, kd})
 				}
 			}
